@@ -766,11 +766,16 @@ def pipe_class(line):
 class C04(Prop):
     id = "C04"
     projection_name = "acc of the input, of the input followed by trailers, and of the header bytes on their own"
-    streams = v1gen.V1_STREAMS + (v2gen.valid_headers, v2gen.control_v2, v2gen.header_tlvs, sendpipe_cases)
+    streams = v1gen.V1_STREAMS + (v2gen.valid_headers, v2gen.control_v2, v2gen.header_tlvs, sendpipe_cases, v2gen.max_headers)
 
     def groups(self, stream, e, meta):
         if stream == "sendpipe":
             yield ("sendpipe", ["sendpipe %s %s" % e])
+            return
+        if stream == "v2-max":
+            # maximal headers: the input, and the input followed by one byte / by a signature
+            for m in ("v2", "auto"):
+                yield ("trail:max", ["%s %s" % (m, e), "%s %s+78" % (m, e), "%s %s+%s" % (m, e, SIG.hex())])
             return
         b = expr_bytes(e)
         if len(b) > 2000:
@@ -845,6 +850,8 @@ class C04(Prop):
         for c, i in zip(cases[1:], impl[1:]):
             if acc(i) != a0:
                 return "accepted header depends on what follows it: %s -> %s but %s -> %s" % (cases[0][:120], a0[:100], c[:140], acc(i)[:100])
+        if tag == "trail:max":
+            return None
         if tag.endswith("nocand"):
             return "accepted although no complete header is present in the input"
         m = re.search(r"OK (\S+)", a0)
@@ -937,10 +944,10 @@ class C05(Prop):
 class C06(Prop):
     id = "C06"
     projection_name = "full (tag, result and flags of HeaderResult::parse; for v1 results flagged incomplete the class, not the variant)"
-    streams = v1gen.V1_STREAMS + (v2gen.signature, v2gen.valid_headers, v2gen.truncations, v2gen.control_v2, v2gen.control_space)
+    streams = v1gen.V1_STREAMS + (v2gen.signature, v2gen.valid_headers, v2gen.truncations, v2gen.control_v2, v2gen.control_space, v2gen.max_headers)
 
     def groups(self, stream, e, meta):
-        if expr_len(e) > 3000:
+        if expr_len(e) > 3000 and stream != "v2-max":
             return
         yield ("auto", ["auto " + e, "v2 " + e, "v1b " + e])
         if stream in ("v1-valid", "v2-valid"):
